@@ -192,7 +192,10 @@ func buildIngress(s Spec) *networking.Ingress {
 	if s.IngKind == "master" || s.IngKind == "minion" {
 		ann["nginx.org/mergeable-ingress-type"] = s.IngKind
 	}
-	if s.ExtraAnn != "" {
+	if strings.HasPrefix(s.ExtraAnn, "@") {
+		// an annotation with an empty value under a key that varies: maps of the same size that differ in a key only
+		ann["example.com/note-"+s.ExtraAnn[1:]] = ""
+	} else if s.ExtraAnn != "" {
 		ann["nginx.org/proxy-connect-timeout"] = s.ExtraAnn
 	}
 	labels := map[string]string{}
@@ -661,7 +664,7 @@ func (g *gen) next() Event {
 		if kind == "ing" {
 			// annotation-only change: generation does not move
 			s := cur
-			s.ExtraAnn = vh.Pick(r, []string{"", "10s", "20s"})
+			s.ExtraAnn = vh.Pick(r, []string{"", "10s", "20s", "@a", "@b", "@c"})
 			g.live[id] = s
 			return Event{Op: "upsert", Spec: s, Note: "annotation"}
 		}
@@ -812,7 +815,51 @@ func (g *gen) episode() []Event {
 		}
 		return s
 	}
-	switch r.Intn(9) {
+	switch r.Intn(11) {
+	case 10:
+		// annotation-only edits (the generation does not move) of an Ingress that is being served, or of a minion that is
+		// attached: keys with empty values come and go, the number of annotations stays the same
+		h := vh.Pick(r, hosts[:3])
+		var x Spec
+		if r.Bool() {
+			x = mk("ing", "ns1", "b", stamps[1])
+			x.IngKind, x.Hosts = "regular", []string{h}
+		} else {
+			m := mk("ing", "ns1", "a", stamps[1])
+			m.IngKind, m.Hosts = "master", []string{h}
+			up(m, "episode-master")
+			x = mk("ing", "a-b", "b", stamps[1])
+			x.IngKind, x.Hosts, x.Paths = "minion", []string{h}, []string{"/a"}
+		}
+		x.ExtraAnn = "@a"
+		x = up(x, "episode-annotated")
+		for _, a := range []string{"@b", "@c", "10s", "@a"}[:2+r.Intn(3)] {
+			x.ExtraAnn = a
+			x = up(x, "annotation")
+		}
+	case 9:
+		// objects of different kinds sharing namespace and name: a master (with a minion) and a VirtualServer or TLS
+		// passthrough TransportServer called the same; the host passes from one to the other and back
+		h := vh.Pick(r, hosts[:3])
+		m := mk("ing", "ns1", "a", stamps[1])
+		m.IngKind, m.Hosts = "master", []string{h}
+		up(m, "episode-master")
+		mi := mk("ing", "a-b", "a", stamps[1])
+		mi.IngKind, mi.Hosts, mi.Paths = "minion", []string{h}, []string{"/a"}
+		up(mi, "episode-minion")
+		ok := vh.Pick(r, []string{"vs", "ts"})
+		o := mk(ok, "ns1", "a", stamps[0]) // older: takes the host over
+		if ok == "vs" {
+			o.Host = h
+		} else {
+			o.Host, o.LName, o.Proto = h, "tls-passthrough", "TLS_PASSTHROUGH"
+		}
+		up(o, "episode-same-name-older")
+		if r.Bool() {
+			del(o) // and the master gets it back
+		} else {
+			del(m)
+		}
 	case 7:
 		// one TransportServer takes a (listener, host) pair over and hands another one over in the same event:
 		// b holds l1, a (older) holds l2 with c waiting behind it; a moves from l2 to l1 (or the mirror image)
@@ -869,9 +916,8 @@ func (g *gen) episode() []Event {
 		}
 		// touch one of them a few times: every event rebuilds the listener hosts
 		for i := 0; i < 2+r.Intn(3); i++ {
+			// the same object again (a re-sync): a handler may drop it, the arbitration rebuilds anyway
 			t := g.live["ts|ns1/c"]
-			t.Gen++
-			t.Host = ""
 			up(t, "episode-ts-touch")
 		}
 	case 5, 6:
